@@ -13,14 +13,26 @@
      "kcv"     calculate_kcv(key, n)                                  out = hex digits as nibbles
      "zmk"     get_zone_master_key(parts...)[0]                         out = clear key nibbles
      "enczmk"  get_enc_zone_master_key(key, parts...)[0]                out = encrypted key nibbles
-   A format-4 block built without a supplied fill must carry a fill not issued before in the same trace (fresh). *)
+   A format-4 block built without a supplied fill must carry a fill not issued before in the same trace (fresh); over a
+   long trace the 64 fill bits must each be set about half of the time (Balanced). *)
 EXTENDS TraceBatch, PinBlock
 VARIABLES tid, l, bad, issued
 tvars == <<tid, l, bad, issued>>
 Tr == Traces[tid]
 Ev == Tr.events[l]
 TInit == tid = 1 /\ l = 1 /\ bad = FALSE /\ issued = {} /\ RegInit
-EndOfTrace == tid <= NTr /\ l > Len(Tr.events) /\ (IF bad THEN EndRejected ELSE Accept)
+\* "64 random bits": over a trace that issued N >= 400 fills, every one of the 64 bit positions is set in about half of
+\* them - within 7 standard deviations, |2c - N| <= 7 sqrt(N), i.e. (2c - N)^2 <= 49 N  (a fair source fails this for
+\* some position with probability below 2 * 10^-10)
+BitSet(f, i, j) == (f[i] \div (2 ^ j)) % 2 = 1
+Balanced(fills) ==
+    LET N == Cardinality(fills) IN
+    \A i \in 1..8, j \in 0..7 :
+        LET c == Cardinality({f \in fills : BitSet(f, i, j)}) IN (2 * c - N) * (2 * c - N) <= 49 * N
+EndOfTrace == /\ tid <= NTr /\ l > Len(Tr.events)
+              /\ \E unb \in {Cardinality(issued) >= 400 /\ ~Balanced(issued)} :
+                    /\ (IF unb THEN RejectCont(Tr.tid, l, "iso4-fill-bits-not-balanced") ELSE TRUE)
+                    /\ (IF bad \/ unb THEN EndRejected ELSE Accept)
               /\ tid' = tid + 1 /\ l' = 1 /\ bad' = FALSE /\ issued' = {}
 Verdict(e) ==
     IF e.kind # "ok" THEN e.op \o "-raised"
